@@ -511,6 +511,61 @@ class _World:
         self.env = self.mgr.tm_env
         for d in (self.env.cache_dir, self.env.apps_dir, self.env.running_dir, self.env.cleanup_dir):
             os.makedirs(d, exist_ok=True)
+        # the manager's DirWatcher: the real queueing / batching code (dirwatch_base.DirWatcher.process_events)
+        # over the harness' inotify queue; its callbacks are the manager's handlers, as `AppCfgMgr.run` sets them
+        from treadmill.dirwatch import dirwatch_base
+        world = self
+
+        class _QueueWatcher(dirwatch_base.DirWatcher):
+            __slots__ = ()
+
+            def _add_dir(self, watch_dir):
+                return 1
+
+            def _remove_dir(self, watch_id):
+                pass
+
+            def _wait_for_events(self, timeout):
+                return bool(world.queue)
+
+            def _read_events(self):
+                evs = [({'created': dirwatch_base.DirWatcherEvent.CREATED,
+                         'modified': dirwatch_base.DirWatcherEvent.MODIFIED,
+                         'deleted': dirwatch_base.DirWatcherEvent.DELETED}[k], os.path.join(world.env.cache_dir, n))
+                       for k, n in world.queue]
+                world.expected.extend(world.queue)
+                world.queue = []
+                return evs
+        self.more_pending = dirwatch_base.DirWatcherEvent.MORE_PENDING
+        self.expected = []          # events handed to the watcher, in inotify (FIFO) order, not yet delivered
+        self.watcher = _QueueWatcher(self.env.cache_dir)
+        for kind in ('created', 'modified', 'deleted'):
+            setattr(self.watcher, 'on_' + kind,
+                    (lambda k: lambda path: world.delivered(k, os.path.basename(path)))(kind))
+
+    def delivered(self, kind, name):
+        """A DirWatcher callback: events reach the handlers in the order inotify queued them."""
+        if self.expected and self.expected[0] != (kind, name):
+            self.run.hits.append(fw.Hit(clause='event-order', call_site='DirWatcher.process_events',
+                                        detail='%s %s delivered while %s %s was queued before it' % (
+                                            (kind, name) + tuple(self.expected[0]))))
+            if (kind, name) in self.expected:
+                self.expected.remove((kind, name))
+        elif self.expected:
+            self.expected.pop(0)
+        self.handler(kind, name)
+
+    def deliver(self, n):
+        """What `AppCfgMgr.run` does while events are pending: rounds of `process_events(max_events=5)`."""
+        left = n
+        while left > 0 and (self.queue or self.watcher.event_list):
+            res = self.watcher.process_events(max_events=min(5, left))
+            done = sum(1 for r in res if r[0] != self.more_pending)
+            if any(r[0] == self.more_pending for r in res):
+                self.stats['more-pending'] = self.stats.get('more-pending', 0) + 1
+            if done == 0:
+                break
+            left -= done
 
     def snap(self):
         env = self.env
@@ -749,11 +804,7 @@ def run_impl(case, pid):
                 elif k == 'ready':
                     w.ready(bool(op[1]))
                 elif k == 'deliver':
-                    for _ in range(int(op[1])):
-                        if not w.queue:
-                            break
-                        kind, name = w.queue.pop(0)
-                        w.handler(kind, name)
+                    w.deliver(int(op[1]))
                 elif k == 'ev':
                     name = op[2]
                     if isinstance(name, int):
@@ -781,6 +832,8 @@ def run_impl(case, pid):
                     w.reboot()
         s = w.stats
         run.tags.add('mode=%s' % case.get('mode', '?'))
+        if s.get('more-pending'):
+            run.tags.add('batch-limit-reached')
         run.tags.add('syncs=%d' % min(s['sync'], 4))
         if s['sync2']:
             run.tags.add('sync-with->=2-containers')
